@@ -428,7 +428,11 @@ def job_run(args):
     res["diffs"] = []
     for (ci, ii, what, ia, ib) in diffs[:40]:
         script = [a[j][0] for j in range(ci, min(ii + 1, len(a)))] if ii >= ci else []
-        res["diffs"].append({"what": what, "impl": ia, "model": ib, "script": script[-400:], "trace": tr, "line": a[ii][2] + 1 if ii < len(a) else 0})
+        slines = []
+        for j in range(ci, min(ii + 1, len(a))):
+            slines += [l for l in a[j][1] if l.startswith("S ")]
+        res["diffs"].append({"what": what, "impl": ia, "model": ib, "script": script[-400:], "context": [l[:600] for l in slines[-2:]],
+                             "trace": tr, "line": a[ii][2] + 1 if ii < len(a) else 0})
     res["diff_whats"] = {}
     for d in diffs:
         for w in d[2].split(","):
@@ -628,13 +632,13 @@ def script_init_and_actions(script):
     return init, acts
 
 
-def match_known(known, pid, hit):
+def match_known(known, pid, hit, any_code=False):
     """hit: dict(prop, code, script, context). Returns the finding that lists exactly this failure, if any."""
     for f in known.get("findings", []):
         if pid not in f.get("properties", []):
             continue
         m = f.get("match", {})
-        if "monitor_codes" in m and [hit.get("prop"), hit.get("code")] not in m["monitor_codes"]:
+        if not any_code and "monitor_codes" in m and [hit.get("prop"), hit.get("code")] not in m["monitor_codes"]:
             continue
         if m.get("kind") == "move_number_max_silver_turn_end":
             # the state the action was applied to: move number 2^64-1, Silver to move
@@ -816,10 +820,20 @@ def check_property(ctx, pid):
     errors = [j for j in jobs if j.get("error")]
     # ---- correspondence relevant to this property
     tie_breaks = []
+    tie_known = 0
     for j in jobs:
         for d in j.get("diffs", []):
             if relevant_diff(pid, d["what"]):
-                tie_breaks.append(dict(d, job=j["name"], profile=j["prof"]))
+                # a disagreement on an input that is a listed finding (the model follows the rule, the
+                # implementation is known to deviate there) is reported as that finding, not as a broken tie
+                f = match_known(known, pid, {"script": d.get("script", []), "context": d.get("context", [])}, any_code=True)
+                if f:
+                    tie_known += 1
+                    line = "KNOWN-FINDING: property=%s %s" % (pid, f["what"])
+                    if line not in known_lines:
+                        known_lines.append(line)
+                else:
+                    tie_breaks.append(dict(d, job=j["name"], profile=j["prof"]))
     # ---- monitor hits for this property
     mon_hits = []
     tie_local = []
